@@ -3,7 +3,7 @@
    get_unchecked outside the slice, every usize underflow and every over-wide shift is a [Fail], so
    [Ok] means none occurred — and a store changes no byte other than those the range covers. *)
 From Coq Require Import ZArith List Bool.
-From DD Require Import Common Carrier Bits BitsSpec BitsProofs BitsRoundtrip Mir GenErr Layout LayoutProofs FieldSetGen FieldSetGenProofs.
+From DD Require Import Common Carrier Bits BitsSpec BitsProofs BitsRoundtrip Mir GenErr Layout LayoutProofs FieldSetGen FieldSetGenProofs FieldSetLaws.
 Import ListNotations.
 Open Scope Z_scope.
 
@@ -70,6 +70,19 @@ Proof. exact generated_setter_safe_and_exact. Qed.
 
 (* Fields wider than 128 bits get the non-existent carrier u256/i256: not a memory-safety matter (the
    output does not compile) — stated, not hidden. *)
+(* ... and the emitted setter writes no byte of the set's array outside the bytes its declared range covers
+   (C03_store_footprint composed with C03_accepted_accessors_in_bounds: the second sentence of the property
+   for the call sites the generator actually emits). *)
+Theorem C03_generated_setter_footprint : forall ptrw fsf a v bytes,
+  In ptrw ptr_widths -> accessor_in_bounds fsf a -> a_end a - a_start a <= 128 ->
+  bytes_ok bytes -> Z.of_nat (List.length bytes) = fs_size_bytes fsf ->
+  exists bytes', setter_call ptrw a v bytes = Some (Ok bytes') /\ List.length bytes' = List.length bytes /\
+    forall idx, (idx < List.length bytes)%nat ->
+      (forall k, a_start a <= k < a_end a ->
+         phys_byte (to_byte_order (a_byte_order a)) (Z.of_nat (List.length bytes)) k <> Z.of_nat idx) ->
+      nth idx bytes' 0 = nth idx bytes 0.
+Proof. exact generated_setter_footprint. Qed.
+
 Example C03_wide_field_carrier : carrier_bits 129 = 256 /\ cty_of false 256 = None.
 Proof. vm_compute. split; reflexivity. Qed.
 
@@ -79,3 +92,4 @@ Print Assumptions C03_store_footprint.
 Print Assumptions C03_accepted_accessors_in_bounds.
 Print Assumptions C03_generated_getters_safe.
 Print Assumptions C03_generated_setters_safe.
+Print Assumptions C03_generated_setter_footprint.
